@@ -48,7 +48,7 @@ REQUIRED_COUNTERS = (['obs:jacvec-duality', 'obs:apply_linear-duality', 'obs:sol
                       'obs:assembled-model', 'obs:scaled-model-total-operator',
                       'obs:component-operators', 'obs:external-input-seeds', 'obs:jacvec-no-relinearize',
                       'obs:other-root-reached', 'obs:history-steps-judged', 'obs:repeated-seed-vectors',
-                      'obs:rhs_checking-model'] +
+                      'obs:rhs-cache-alive-model'] +
                      ['move:G:' + m for m in K2.MOVES_G] + ['move:stock:' + m for m in K2.MOVES_STOCK] +
                      ['class:' + c for c in sorted(set(K2.CLASS_OF.values()))])
 ASSUMPTIONS = ['linear solves are judged only when no linear solver reported non-convergence',
@@ -194,6 +194,16 @@ def _judge_systems(systems, nr, fmon, acc, bad, step, reps, memo=None):
         di.asarray()[:] = 0.0
 
 
+def _live_rhs_caches(p):
+    """number of linear solvers of the problem whose reverse-mode solution cache (rhs_checking) is alive."""
+    n = 0
+    for s in p.model.system_iter(include_self=True, recurse=True):
+        chk = getattr(s._linear_solver, '_lin_rhs_checker', None)
+        if chk is not None and chk._caches.maxlen:
+            n += 1
+    return n
+
+
 def _finite(p):
     return bool(np.all(np.isfinite(p.model._outputs.asarray())) and np.all(np.isfinite(p.model._inputs.asarray())))
 
@@ -211,7 +221,10 @@ def run_case(case, acc):
     opts = dict(OPTS, p_scaling=0.6) if scaled else dict(OPTS)
     cached = case['seed'] % 4 == 1
     if cached:
-        opts['p_rhs_checking'] = 0.8        # DirectSolver / ScipyKrylov cache reverse-mode solutions by right-hand side
+        # DirectSolver / ScipyKrylov cache reverse-mode solutions by right-hand side (rhs_checking); the cache is
+        # only alive when declared responses depend on each other: scaled copies of states, all `of` declared
+        opts['p_rhs_checking'] = 0.8
+        opts['p_scaled_copy'] = 0.7
     spec = G.gen_spec(rng, opts)
     feats = spec_features(spec)
     if scaled:
@@ -256,6 +269,11 @@ def run_case(case, acc):
         try:
             for mode in ('fwd', 'rev'):
                 p = G.build(spec)
+                if cached:
+                    for w in wrt_names:
+                        p.model.add_design_var(w)
+                    for o in of_names:
+                        p.model.add_constraint(o, upper=1e3)
                 p.setup(mode=mode)
                 p.run_model()
                 probs[mode] = p
@@ -268,6 +286,7 @@ def run_case(case, acc):
         bad = []
         memo = {}
         step = 'initial'
+        n_cache = _live_rhs_caches(probs['rev'])
         try:
             p = probs['rev']
             # (group operators not with solver scaling: run_apply_linear/run_solve_linear take and return vectors
@@ -314,8 +333,8 @@ def run_case(case, acc):
         acc.count('obs:matfree-model')
     if 'assembled' in feats:
         acc.count('obs:assembled-model')
-    if cached and 'rhs_checking' in repr(spec['tree']):
-        acc.count('obs:rhs_checking-model')
+    if n_cache:
+        acc.count('obs:rhs-cache-alive-model')
     if bad:
         first = True
         seen = set()
@@ -380,6 +399,12 @@ def run_stock_case(case, acc):
         try:
             for mode in ('fwd', 'rev'):
                 p, info = K2.build_stock(spec)
+                if spec.get('rhs_checking'):
+                    # responses that depend on each other keep the rhs_checking caches alive
+                    for w in info['wrt']:
+                        p.model.add_design_var(w)
+                    p.model.add_constraint(info['paths'][spec['blocks'][0]['name']] + '.y', upper=1e3)
+                    p.model.add_objective(info['of'][0], index=0)
                 p.setup(mode=mode)
                 K2.init_stock(p, spec, info)
                 p.run_model()
@@ -403,6 +428,7 @@ def run_stock_case(case, acc):
         memo = {}
         step = 'initial'
         steps_done = 0
+        n_cache = _live_rhs_caches(probs['rev'])
         try:
             p = probs['rev']
             systems = _stock_systems(p, spec, info)
@@ -449,6 +475,8 @@ def run_stock_case(case, acc):
                 p.cleanup()
     for c in classes:
         acc.count('class:' + c)
+    if n_cache:
+        acc.count('obs:rhs-cache-alive-model')
     if bad:
         # Mechanism keys.  A stock component whose OWN operator pair (run_apply_linear / run_solve_linear on the
         # component) fails is the culprit: it is reported once, with the first operator and the first step that
